@@ -40,6 +40,7 @@ import (
 	"os"
 	"runtime"
 	"runtime/debug"
+	"strings"
 	"sync"
 
 	"github.com/bytedance/gopkg/lang/mcache"
@@ -846,6 +847,52 @@ func c14Hostile(p []V) V {
 	return Ls(Bo(ok), I(n))
 }
 
+// kind 14: many small strings / binaries decoded with the in-memory readers while the span cache is
+// ON (c14Run enables it for cases that contain this kind), all results retained and verified at the
+// end: values handed to different goroutines must never share memory, also when the allocator
+// moves to a new block.
+func c14SpanDecode(p []V) V {
+	n, seed := AsInt(p[0]), AsInt(p[1])
+	var enc []byte
+	var want [][]byte
+	for i := 0; i < n; i++ {
+		l := 1 + (i*7+seed)%100
+		v := Pat(seed+i, l)
+		want = append(want, v)
+		enc = append(enc, byte(l>>24), byte(l>>16), byte(l>>8), byte(l))
+		enc = append(enc, v...)
+	}
+	gotS := make([]string, 0, n)
+	gotB := make([][]byte, 0, n)
+	off, ok := 0, true
+	for i := 0; i < n; i++ {
+		if i%2 == 0 {
+			s, l, err := thrift.Binary.ReadString(enc[off:])
+			ok = ok && err == nil
+			gotS = append(gotS, s)
+			gotB = append(gotB, nil)
+			off += l
+		} else {
+			b, l, err := thrift.Binary.ReadBinary(enc[off:])
+			ok = ok && err == nil
+			gotB = append(gotB, b)
+			gotS = append(gotS, "")
+			off += l
+		}
+	}
+	bad := 0
+	for i := 0; i < n; i++ {
+		if i%2 == 0 {
+			if gotS[i] != string(want[i]) {
+				bad++
+			}
+		} else if string(gotB[i]) != string(want[i]) {
+			bad++
+		}
+	}
+	return Ls(Bo(ok && bad == 0), I(n), I(bad))
+}
+
 func c14Cycle(m *c14Maps, c V) (out V) {
 	defer func() {
 		if r := recover(); r != nil {
@@ -875,6 +922,8 @@ func c14Cycle(m *c14Maps, c V) (out V) {
 		return c14Retain(kind, p, AsList(a[2]))
 	case 13:
 		return c14Hostile(p)
+	case 14:
+		return c14SpanDecode(p)
 	}
 	panic("c14: bad cycle kind")
 }
@@ -934,6 +983,10 @@ func c14Run(in V) V {
 	mp := AsList(a[3])
 	m := c14MkMaps(AsInt(mp[0]), AsInt(mp[1]))
 	resets := c14Resets()
+	if strings.Contains(Show(a[2]), "((14 (") || strings.Contains(Show(a[2]), " (14 (") {
+		thrift.SetSpanCache(true) // a global switch: set before the goroutines start, reset after the case
+		defer thrift.SetSpanCache(false)
+	}
 	// concurrent phase FIRST (so that whatever the library builds lazily on first use — tables,
 	// caches of error values — is built under concurrency), sequential reference afterwards
 	first := make([]V, G)
@@ -1181,6 +1234,10 @@ func genC14(g *Gen) {
 			var s VL
 			if i%7 == 3 { // every goroutine decodes hostile inputs at the same time (shared error paths)
 				scripts = append(scripts, VL{hostile(), gets(), hostile()})
+				continue
+			}
+			if i%7 == 5 { // every goroutine decodes small values with the span cache on
+				scripts = append(scripts, VL{Ls(I(14), Ls(I(600+g.R.Intn(900)), I(g.R.Intn(200))), Ls()), gets()})
 				continue
 			}
 			for j := 1 + g.R.Intn(4); j > 0; j-- {
